@@ -829,6 +829,10 @@ def judge(case):
                         stats['c16_representative_excluded'] += 1      # listed C16 finding, not staleness
                         continue
                     blob = json.dumps(a) + json.dumps(b)
+                    if k == 'query' and p.get('l') and op.get('code'):
+                        src_lines = op['code'].split('\n')
+                        if 0 < p['l'] <= len(src_lines) and 'zm' in src_lines[p['l'] - 1]:
+                            blob += ' zm_v(probe line mentions the archive module)'
                     zipcache = (last_zip_write is not None and
                                 proc_started.get(op.get('proc', 0), i) < last_zip_write and
                                 ('vendor.zip' in blob or 'zm_v' in blob))
